@@ -292,7 +292,7 @@ func (g *gen) genNew() {
 			data[name] = d
 		case "ENBIG":
 			// an enum whose cardinality sits at a word boundary of the bit set or at the 255 limit; fixes the row count
-			k := r.PickInt([]int{1, 2, 63, 64, 65, 127, 128, 129, 191, 192, 193, 254, 255, 256, 257, 300})
+			k := r.PickInt([]int{1, 2, 63, 64, 65, 127, 128, 129, 191, 192, 193, 254, 255, 255, 255, 256, 257, 300})
 			n = k + r.Intn(3)
 			cn = n
 			d := make([]*string, cn)
@@ -1666,11 +1666,11 @@ func (g *gen) genExpr(f *hframe, depth int, typ string, bad bool) exprT {
 			}
 			return exprT{types.ColumnName(name), []string{"C", tx.HexS(name)}}
 		case 1:
-			if r.Bool() {
+			switch r.Intn(3) {
+			case 0:
 				// a raw list expression with more than three elements is malformed (only Expr folds n-ary operands)
 				return exprT{[]interface{}{"+", 1, 2, 3}, []string{"BADARG"}}
-			}
-			if r.P(1, 3) {
+			case 1:
 				// an empty list in expression position
 				return exprT{[]interface{}{}, []string{"BADARG"}}
 			}
@@ -1956,6 +1956,9 @@ func nameToks(names []string) []string {
 func (g *gen) genOp() {
 	r := g.r
 	bad := r.P(1, 8)
+	if g.opt["badheavy"] != "" && r.P(1, 3) {
+		bad = true // sections about invalid use: malformed arguments in every second or third call
+	}
 	src := g.pickFrame(!r.P(1, 10))
 	fid := g.freshFid()
 	head := []string{"O", tx.Int(fid), tx.Int(src.id)}
